@@ -102,9 +102,11 @@ func (buf *bufferer) RegisterNewConsumer() base.ChunkConsumerArgs {
 
 // Accept accepts incoming chunks
 func (buf *bufferer) Accept(chunk base.LogChunk) {
+	var unloadedData []byte
 	// divide by 2 because channel length is not updated in time
 	if buf.feeder.NumOutput() >= defs.BufferMaxNumChunksInMemory/2 {
 		buf.logger.Debugf("unload chunk for queuing: id=%s len=%d", chunk.ID, len(chunk.Data))
+		unloadedData = chunk.Data
 		buf.chunkMan.OnChunkInput(false)
 		if !buf.chunkMan.UnloadOrDropChunk(&chunk) {
 			return
@@ -122,10 +124,14 @@ func (buf *bufferer) Accept(chunk base.LogChunk) {
 			buf.metrics.queuedChunksPersistent.Inc()
 		}
 	default:
-		buf.chunkMan.OnChunkDropped(chunk)
 		if chunk.Data != nil {
+			buf.chunkMan.OnChunkDropped(chunk)
 			buf.logger.Warnf("queue overflow, drop loaded chunk: id=%s len=%d", chunk.ID, len(chunk.Data))
 		} else {
+			// the chunk has just been written to disk: remove the file too, or it would stay in the directory outside
+			// of the queue and the size accounting while being counted as dropped
+			chunk.Data = unloadedData
+			buf.chunkMan.OnChunkCorrupted(chunk)
 			buf.logger.Warnf("queue overflow, drop unloaded chunk id=%s", chunk.ID)
 		}
 	}
